@@ -357,6 +357,10 @@ func (x *Exec) inline(site ssa.Instruction, fn *ssa.Function, bindings []Value, 
 	var merged *State
 	if len(edges) == 1 {
 		merged = edges[0].st
+		// partial correctness: what follows the call is reached only if the callee returned
+		if !x.pure {
+			x.assume(edges[0].cond)
+		}
 	} else {
 		var rr Term
 		merged, rr = x.merge(edges, "ret."+shortFn(fn))
